@@ -458,6 +458,11 @@ MUTATIONS = [
                 """                if round(snr01nm_with_penalty[min_ind], 2) < pathreq.OSNR - equipment['SI']['default'].sys_margins:
                     msg = f'\\tWarning! Request {pathreq.request_id} computed path from' \\
                         + f' {pathreq.source} to {pathreq.destination} does not pass with {pathreq.tsp_mode}'""")]},
+    {'id': 'c13-fixed-mode-strict-at-threshold', 'props': ['C13'], 'tests': 'tests/test_automaticmodefeature.py',
+     'desc': 'fixed mode: a worst channel exactly at threshold + margin is blocked ("at least" became "more than")',
+     'edits': [('gnpy/topology/request.py',
+                "                snr01nm_with_penalty = total_path[-1].snr_01nm - total_path[-1].total_penalty\n                min_ind = argmin(snr01nm_with_penalty)\n                if round(snr01nm_with_penalty[min_ind], 2) < pathreq.OSNR + equipment['SI']['default'].sys_margins:",
+                "                snr01nm_with_penalty = total_path[-1].snr_01nm - total_path[-1].total_penalty\n                min_ind = argmin(snr01nm_with_penalty)\n                if round(snr01nm_with_penalty[min_ind], 2) <= pathreq.OSNR + equipment['SI']['default'].sys_margins:")]},
     {'id': 'c13-mode-order-ascending', 'props': ['C13'], 'tests': 'tests/test_automaticmodefeature.py',
      'desc': 'modes of one baud rate explored by ascending bit rate',
      'edits': [('gnpy/topology/request.py',
